@@ -637,6 +637,11 @@ def deviations(seed):
             vals = list(INT_ALPHABETS[s])
             if name == 'missing_data':
                 vals += [99999.5, -1, -99999]
+                # a declared missing-data code that equals a value of the table the model reads is a refused specification
+                # (property C12; since repository commit 9268215 the audit of the logit applies the declared code too), not
+                # a parameter deviation of a valid model: such codes are outside this alphabet
+                cells = {float(v) for col in TABLE.values() for v in col}
+                vals = [v for v in vals if float(v) not in cells]
         elif tname == 'float':
             vals = list(FLOAT_ALPHABETS[s]) + list(UNSIGNED_EXTRA[s])
         else:
